@@ -772,6 +772,10 @@ impl ReadTransactionCounter {
 
     // Block until all outstanding read transactions have been released.
     fn block_until_zero(&self) {
+        #[cfg(feature = "verif")]
+        crate::verif::sched::point("readtx.zero", &|| {
+            *self.inner.read_transactions.lock() == 0
+        });
         let mut guard = self.inner.read_transactions.lock();
         self.inner.cvar.wait_while(&mut guard, |count| *count > 0);
     }
